@@ -349,6 +349,7 @@ func (fr *Frame) binop(st *State, pc Term, ins *ssa.BinOp) Val {
 	}
 	x := e.toTerm(st, xv)
 	y := e.toTerm(st, yv)
+	e.mapCardFacts(x, y)
 	switch ins.Op {
 	case token.EQL:
 		return termVal(Eq(x, y))
@@ -832,3 +833,45 @@ func isStringType(t types.Type) bool {
 }
 
 var _ = strings.Contains
+
+// mapCardFacts: when the cardinalities of two maps are compared, make the finite-set facts
+// relating cardinality and domain available for that pair (mathematical axioms, listed in the
+// trusted base): equal domains have equal cardinality; equal cardinality plus inclusion gives
+// equal domains.
+func (e *Exec) mapCardFacts(x, y Term) {
+	const pre = "(card_"
+	if !strings.HasPrefix(x.S, pre) || !strings.HasPrefix(y.S, pre) || x.S == y.S || e.binder > 0 {
+		return
+	}
+	ms := func(t Term) (Term, bool) {
+		sp := strings.Index(t.S, " ")
+		if sp < 0 {
+			return Term{}, false
+		}
+		sort := Sort(t.S[len(pre):sp])
+		if !e.p.U.IsMap(sort) {
+			return Term{}, false
+		}
+		return Term{t.S[sp+1 : len(t.S)-1], sort}, true
+	}
+	m1, ok1 := ms(x)
+	m2, ok2 := ms(y)
+	if !ok1 || !ok2 || m1.Sort != m2.Sort {
+		return
+	}
+	key := m1.S + "|" + m2.S
+	if e.cardFacts == nil {
+		e.cardFacts = map[string]bool{}
+	}
+	if e.cardFacts[key] {
+		return
+	}
+	e.cardFacts[key] = true
+	u := e.p.U
+	ks := u.DT(m1.Sort).Key
+	d1, d2 := u.MDom(m1).S, u.MDom(m2).S
+	e.note("finite-set axioms assumed for a pair of maps whose lengths are compared")
+	e.assume(T(SBool, "(=> (forall ((k %s)) (= (select %s k) (select %s k))) (= %s %s))", ks, d1, d2, x.S, y.S))
+	e.assume(T(SBool, "(=> (and (= %s %s) (forall ((k %s)) (=> (select %s k) (select %s k)))) (forall ((k %s)) (=> (select %s k) (select %s k))))",
+		x.S, y.S, ks, d1, d2, ks, d2, d1))
+}
